@@ -81,23 +81,23 @@ Definition nontrivial_of (c : case) : bool :=
      1  cgroup v2: the merge pass writes the literal "-1" to cpu.max
      2  cgroup v2: cpu.max is rewritten although its quota is unchanged
      3  BE cpuset: a cgroup that already holds the target cpuset is rewritten (to old ∪ new and back) *)
-Fixpoint offenders3 (fs0 fs : fmap) (us : list updater) (ws : list write) : list (write * bool) :=
+Fixpoint offenders3 (e : env) (fs0 fs : fmap) (us : list updater) (ws : list write) : list (write * bool) :=
   match ws with
   | [] => []
-  | w :: r => (if needed_write fs0 us w && negb (get fs (fst w) =? norm (snd w)) then []
-               else [(w, negb (get fs (fst w) =? norm (snd w)))])
-              ++ offenders3 fs0 (apply_write fs w) us r
+  | w :: r => (if needed_write fs0 us w && negb (get fs (fst w) =? norm_at e (fst w) (snd w)) then []
+               else [(w, negb (get fs (fst w) =? norm_at e (fst w) (snd w)))])
+              ++ offenders3 e fs0 (apply_write e fs w) us r
   end.
 
 Definition known_shape (e : env) (fs : fmap) (us : list updater) (ws : list write) (c : Z) : Z :=
-  let off3 := map fst (offenders3 fs fs us ws) in
+  let off3 := map fst (offenders3 e fs fs us ws) in
   let off5 := filter (fun w => negb (legal_write e w)) ws in
-  let all_q := forallb (on_q e) off3 && forallb (fun w => on_q e w && (snd w =? -2)) off5 in
+  let all_q := forallb (fun w => on_q e (fst w)) off3 && forallb (fun w => on_q e (fst w) && (snd w =? -2)) off5 in
   if negb all_q then 0
   else if c =? 3 then 2 else if c =? 5 then 1 else 0.
 
 Definition known_shape_be (e : env) (fs : fmap) (us : list updater) (ws : list write) (c : Z) : Z :=
-  let off3 := offenders3 fs fs us ws in
+  let off3 := offenders3 e fs fs us ws in
   (* every offending write changes the content of a file of the batch whose start value is the target *)
   if (c =? 3) && forallb (fun wb => snd wb && inb (fst (fst wb)) (map ukey us)) off3 then 3 else 0.
 
